@@ -52,23 +52,36 @@ theorem mem_addNames {old : List Name} {n x : Name} : x ∈ addNames old [n] ↔
       · exact Or.inl ⟨h, by simpa using hx⟩
     · exact Or.inr h
 
-/-- (β) generic re-establishment of the invariant -/
-theorem consistent_insertChild {s : St} (hc : Consistent s) {L : Layer} (hup : s.disk.upper = some L)
-    (n : Name) (pp : Path) (X : Node) {pm m' : MNode}
+theorem not_below_child {q p : Path} {n' : Name} (h : q.isSuffixOf p = false) (hne : n' :: p ≠ q) :
+    q.isSuffixOf (n' :: p) = false := by
+  cases hb : q.isSuffixOf (n' :: p) with
+  | false => rfl
+  | true => rw [below_cons hb hne] at h; cases h
+
+/-- (β) generic re-establishment of the invariant; the upper layer may change anywhere inside the
+    subtree at `n :: pp` (which leaves the forest) -/
+theorem consistent_insertChild_gen {s : St} (hc : Consistent s) {L L' : Layer} (hup : s.disk.upper = some L)
+    (n : Name) (pp : Path) {pm m' : MNode}
     (hpm : s.mem pp = some pm) (hploaded : pm.loaded = true)
     (hfresh : m'.loaded = false ∧ m'.kids = [])
-    (hstep : HostStep L (L.set (n :: pp) X))
-    (H1 : RealsLike m'.reals (localExp (s.disk.setUpper (n :: pp) X) pm n))
+    (hout : ∀ p, (n :: pp).isSuffixOf p = false → L' p = L p) (htree : TreeOK L')
+    (H1 : RealsLike m'.reals (localExp (s.disk.setLayer 0 L') pm n))
     (H4 : m'.whiteout = headWhiteout m'.reals)
-    (H5 : localExp (s.disk.setUpper (n :: pp) X) pm n ≠ [])
+    (H5 : localExp (s.disk.setLayer 0 L') pm n ≠ [])
     (log' : List Call) :
-    Consistent { s with disk := s.disk.setUpper (n :: pp) X, mem := insertedMem s.mem n pp pm m', log := log' } := by
+    Consistent { s with disk := s.disk.setLayer 0 L', mem := insertedMem s.mem n pp pm m', log := log' } := by
   have hl := hc.toLocal
-  have hu : s.disk.upper.isSome := by rw [hup]; rfl
-  have hd' : s.disk.setUpper (n :: pp) X = s.disk.setLayer 0 (L.set (n :: pp) X) := by
-    simp [Disk.setUpper, hup]
-  have hroot0 : ∀ i, (s.disk.setUpper (n :: pp) X).nodeAt i [] = s.disk.nodeAt i [] := fun i =>
-    nodeAt_setUpper_ne _ _ X hu i [] (fun h => by cases h.2)
+  have hroot0 : ∀ i, (s.disk.setLayer 0 L').nodeAt i [] = s.disk.nodeAt i [] := by
+    intro i
+    rw [nodeAt_setLayer0]
+    split
+    · rename_i hi
+      rw [hi, hout [] (by simp [List.isSuffixOf])]
+      simp [Disk.nodeAt, Disk.layer, hup]
+    · rfl
+  have hidx : (s.disk.setLayer 0 L').indices = s.disk.indices := by
+    simp [Disk.setLayer, Disk.indices, hup]
+  have hnpp : (n :: pp).isSuffixOf pp = false := not_below_parent n pp
   have hq_ne_pp : n :: pp ≠ pp := cons_ne_self n pp
   -- reading the new forest
   have hget : ∀ p m0, insertedMem s.mem n pp pm m' p = some m0 →
@@ -88,23 +101,22 @@ theorem consistent_insertChild {s : St} (hc : Consistent s) {L : Layer} (hup : s
   apply LConsistent.toConsistent
   refine ⟨?_, ?_, ?_, ?_, ?_, ?_, ?_, ?_, ?_⟩
   · intro i hi
-    show ((s.disk.setUpper (n :: pp) X).nodeAt i []).isDir = true
+    show ((s.disk.setLayer 0 L').nodeAt i []).isDir = true
     rw [hroot0]
-    exact hl.roots i (by rw [← indices_setUpper s.disk (n :: pp) X]; exact hi)
+    exact hl.roots i (by rw [← hidx]; exact hi)
   · intro i Li hLi
     show TreeOK Li
-    rw [hd'] at hLi
     cases i with
     | zero =>
       simp only [Disk.layer, Disk.setLayer, Option.some.injEq] at hLi
       subst hLi
-      exact hstep.2 (hl.trees 0 L hup)
+      exact htree
     | succ j => exact hl.trees (j + 1) Li (by simpa [Disk.layer, Disk.setLayer] using hLi)
   · -- root
     obtain ⟨m0, hm0, hr0⟩ := hl.root
-    have hrr : (s.disk.setUpper (n :: pp) X).indices.map (rootReal (s.disk.setUpper (n :: pp) X)) =
+    have hrr : (s.disk.setLayer 0 L').indices.map (rootReal (s.disk.setLayer 0 L')) =
         s.disk.indices.map (rootReal s.disk) := by
-      rw [indices_setUpper]
+      rw [hidx]
       apply List.map_congr_left
       intro i _
       simp [rootReal, hroot0]
@@ -124,7 +136,7 @@ theorem consistent_insertChild {s : St} (hc : Consistent s) {L : Layer} (hup : s
         rw [hrr]; exact hr0
   · -- child
     intro p' pm' n' c hpm' hc'
-    show RealsLike c.reals (localExp (s.disk.setUpper (n :: pp) X) pm' n')
+    show RealsLike c.reals (localExp (s.disk.setLayer 0 L') pm' n')
     rcases hget _ _ hc' with ⟨h1, h2⟩ | ⟨h1, h2⟩ | ⟨h1, h2, h3, h4⟩
     · -- the child is the parent node `pp` (so pp = n' :: p')
       rcases hget _ _ hpm' with ⟨g1, _⟩ | ⟨g1, _⟩ | ⟨g1, g2, g3, g4⟩
@@ -132,7 +144,7 @@ theorem consistent_insertChild {s : St} (hc : Consistent s) {L : Layer} (hup : s
       · rw [g1] at h1; exact absurd h1 (by intro h; have := congrArg List.length h; simp at this; omega)
       · rw [h2]
         show RealsLike pm.reals _
-        rw [localExp_agree s.disk _ pm' n' (agree_setUpper hc _ X hu g4 n' g2 (by rw [h1]; exact hq_ne_pp.symm))]
+        rw [localExp_agree s.disk _ pm' n' (agree_outside hc hup _ hout g4 n' g3 (by rw [h1]; exact hnpp))]
         exact hl.child p' pm' n' pm g4 (by rw [h1]; exact hpm)
     · -- the child is the new node
       have hp' : p' = pp := by injection h1
@@ -149,14 +161,14 @@ theorem consistent_insertChild {s : St} (hc : Consistent s) {L : Layer} (hup : s
         subst g1
         rw [g2]
         have hne : n' :: p' ≠ n :: p' := h2
-        show RealsLike c.reals (localExp (s.disk.setUpper (n :: p') X) pm n')
-        rw [localExp_agree s.disk _ pm n' (agree_setUpper hc _ X hu hpm n' hq_ne_pp.symm hne)]
+        show RealsLike c.reals (localExp (s.disk.setLayer 0 L') pm n')
+        rw [localExp_agree s.disk _ pm n' (agree_outside hc hup _ hout hpm n' hnpp h3)]
         exact hl.child p' pm n' c hpm h4
       · -- its parent would be the new node: then the child is in the subtree
         subst g1
         have := below_of_below n' (below_self (n :: pp))
         rw [this] at h3; cases h3
-      · rw [localExp_agree s.disk _ pm' n' (agree_setUpper hc _ X hu g4 n' g2 h2)]
+      · rw [localExp_agree s.disk _ pm' n' (agree_outside hc hup _ hout g4 n' g3 h3)]
         exact hl.child p' pm' n' c g4 h4
   · -- wh
     intro p m0 hm0
@@ -166,19 +178,19 @@ theorem consistent_insertChild {s : St} (hc : Consistent s) {L : Layer} (hup : s
     · exact hl.wh p m0 h4
   · -- kidsLoaded
     intro p m0 hm0 hlo n'
-    show (n' ∈ m0.kids → localExp (s.disk.setUpper (n :: pp) X) m0 n' ≠ []) ∧
-      (needsNode (localExp (s.disk.setUpper (n :: pp) X) m0 n') = true → n' ∈ m0.kids)
+    show (n' ∈ m0.kids → localExp (s.disk.setLayer 0 L') m0 n' ≠ []) ∧
+      (needsNode (localExp (s.disk.setLayer 0 L') m0 n') = true → n' ∈ m0.kids)
     rcases hget _ _ hm0 with ⟨h1, h2⟩ | ⟨_, h2⟩ | ⟨h1, h2, h3, h4⟩
     · subst h1
       rw [h2]
-      show (n' ∈ addNames pm.kids [n] → localExp (s.disk.setUpper (n :: p) X) pm n' ≠ []) ∧
-        (needsNode (localExp (s.disk.setUpper (n :: p) X) pm n') = true →
+      show (n' ∈ addNames pm.kids [n] → localExp (s.disk.setLayer 0 L') pm n' ≠ []) ∧
+        (needsNode (localExp (s.disk.setLayer 0 L') pm n') = true →
           n' ∈ addNames pm.kids [n])
       by_cases hn : n' = n
       · subst hn
         exact ⟨fun _ => H5, fun _ => mem_addNames.2 (Or.inr rfl)⟩
       · have hne : n' :: p ≠ n :: p := by intro h; injection h with h; exact hn h
-        rw [localExp_agree s.disk _ pm n' (agree_setUpper hc _ X hu hpm n' hq_ne_pp.symm hne)]
+        rw [localExp_agree s.disk _ pm n' (agree_outside hc hup _ hout hpm n' hnpp (not_below_child hnpp hne))]
         have := hl.kidsLoaded p pm hpm hploaded n'
         refine ⟨fun h => this.1 ?_, fun h => mem_addNames.2 (Or.inl (this.2 h))⟩
         rcases mem_addNames.1 h with h | h
@@ -189,7 +201,7 @@ theorem consistent_insertChild {s : St} (hc : Consistent s) {L : Layer} (hup : s
         intro h
         have : p = pp := by injection h
         exact h1 this
-      rw [localExp_agree s.disk _ m0 n' (agree_setUpper hc _ X hu h4 n' h2 hne)]
+      rw [localExp_agree s.disk _ m0 n' (agree_outside hc hup _ hout h4 n' h3 (not_below_child h3 hne))]
       exact hl.kidsLoaded p m0 h4 hlo n'
   · -- kidsMem
     intro p m0 n' hm0 hn'
@@ -281,5 +293,27 @@ theorem consistent_insertChild {s : St} (hc : Consistent s) {L : Layer} (hup : s
           | false => rfl
           | true => rw [below_of_below n' hb] at h3; cases h3
         rw [this]; simpa using hpm2
+
+/-- (β) for a point update of the upper layer -/
+theorem consistent_insertChild {s : St} (hc : Consistent s) {L : Layer} (hup : s.disk.upper = some L)
+    (n : Name) (pp : Path) (X : Node) {pm m' : MNode}
+    (hpm : s.mem pp = some pm) (hploaded : pm.loaded = true)
+    (hfresh : m'.loaded = false ∧ m'.kids = [])
+    (hstep : HostStep L (L.set (n :: pp) X))
+    (H1 : RealsLike m'.reals (localExp (s.disk.setUpper (n :: pp) X) pm n))
+    (H4 : m'.whiteout = headWhiteout m'.reals)
+    (H5 : localExp (s.disk.setUpper (n :: pp) X) pm n ≠ [])
+    (log' : List Call) :
+    Consistent { s with disk := s.disk.setUpper (n :: pp) X, mem := insertedMem s.mem n pp pm m', log := log' } := by
+  have hd' : s.disk.setUpper (n :: pp) X = s.disk.setLayer 0 (L.set (n :: pp) X) := by
+    simp [Disk.setUpper, hup]
+  rw [hd'] at H1 H5 ⊢
+  refine consistent_insertChild_gen hc hup n pp hpm hploaded hfresh (fun p hp => ?_)
+    (hstep.2 (hc.trees 0 L hup)) H1 H4 H5 log'
+  simp only [Layer.set]
+  rw [if_neg]
+  intro h
+  rw [h, below_self] at hp
+  cases hp
 
 end Fbr.Ovl
